@@ -120,6 +120,12 @@ def main():
     per_lp = {}
     hist = {}
     crashed = set(c for c, _, _ in crashes)
+    # a driving that does not come back at all delivers no answer either
+    for c, rc, err in crashes:
+        if rc == -999:
+            cfgh = meta[c][1]
+            ck.violation("hang_%s.txt" % c, scripts[c], "LP %s: configuration %s did not terminate within the time limit" % (meta[c][0]["name"], cfgh),
+                         match=dict(kind="hang", entry=cfgh["entry"].split()[0], pp=cfgh.get("pp"), dp=cfgh.get("dp")))
     for cid, toks in outs.items():
         if cid in crashed:
             continue
